@@ -1,12 +1,995 @@
-/- C08 model — placeholder until the property is built -/
-import Klong.Model.Wire
+/-
+  C08 — the torch backend's NumPy facade, over an abstract tensor library.
+
+  What is modelled (klongpy/backends/torch_backend.py, numpy_backend.py, base.py and the
+  numeric verbs of monads.py / dyads.py / adverbs.py that call through the provider):
+
+    TorchBackend.TorchUfunc.__call__         -> `facadeUfunc`   (add / subtract / multiply)
+    TorchBackend.minimum / maximum            -> `facadeUfunc`   (.min / .max)
+    _wrap_torch_func(less / greater)          -> `facadeUfunc`   (.lt / .gt)
+    TorchBackendProvider.safe_equal           -> `facadeUfunc`   (.eq)
+    TorchUfunc.reduce (+ subtract's lambda,
+      divide's loop; after the fix: axis 0)   -> `facadeReduce`  (pinned: `facadeReducePinned`)
+    TorchUfunc.accumulate (cumsum / cumprod /
+      cumulative_subtract / generic loop)     -> `facadeAccumulate`
+    TorchBackendProvider.floor_to_int         -> `floorToInt`    (pinned: `floorToIntPinned`)
+    TorchBackendProvider.power                -> `power`
+    kg_asarray on a list of tensors           -> `Lib.stack`
+    numpy's ufunc / ufunc.reduce / .accumulate,
+      np.power, base.floor_to_int             -> `npUfunc`, `npReduce`, `npAccumulate`, `npPower`, `npFloor`
+    eval_adverb_over / scan_over / each,
+      eval_dyad_* / eval_monad_* (numeric)    -> `den` (parametrised by a `Provider`)
+
+  The tensor library itself (torch kernels) is NOT modelled: it is a structure `Lib` of
+  primitives; `NP : Lib` is the reference (what numpy computes on integer tensors).  The
+  theorems of Props/C08.lean take `Agree T NP` as a hypothesis.  Reals (float32 vs float64)
+  are outside the model: a real-valued result is carried as kind + shape only (`V.ab`).
+-/
+import Klong.Model.Val
 namespace Klong.C08
+open Klong
+
+/-! ### integer tensors -/
+
+def prodN : List Nat → Nat
+  | [] => 1
+  | n :: r => n * prodN r
+
+/-- a tensor of any rank in row-major form (`shape = []` is a 0-d scalar) -/
+structure Flat where
+  shape : List Nat
+  data : List Int
+deriving DecidableEq, Repr, Inhabited
+
+def Flat.wf (t : Flat) : Bool := t.data.length == prodN t.shape
+
+def Flat.scalar (n : Int) : Flat := ⟨[], [n]⟩
+
+/-- a tensor of rank ≥ 1 seen along axis 0: `rows.length` sub-tensors of shape `inner`,
+    each flattened -/
+structure Rows where
+  inner : List Nat
+  rows : List (List Int)
+deriving DecidableEq, Repr, Inhabited
+
+def Rows.wf (R : Rows) : Bool := R.rows.all (fun r => r.length == prodN R.inner)
+
+def chunks (m : Nat) : Nat → List Int → List (List Int)
+  | 0, _ => []
+  | n + 1, d => d.take m :: chunks m n (d.drop m)
+
+/-- the axis-0 view of a tensor (none for a 0-d tensor) -/
+def Flat.view (t : Flat) : Option Rows :=
+  match t.shape with
+  | [] => none
+  | n :: inner => some ⟨inner, chunks (prodN inner) n t.data⟩
+
+def Rows.flat (R : Rows) : Flat := ⟨R.rows.length :: R.inner, R.rows.flatten⟩
+
+/-! ### element operations -/
+
+inductive EOp | add | sub | mul | min | max | eq | lt | gt
+deriving DecidableEq, Repr
+
+def EOp.ap : EOp → Int → Int → Int
+  | .add, a, b => a + b
+  | .sub, a, b => a - b
+  | .mul, a, b => a * b
+  | .min, a, b => if a ≤ b then a else b
+  | .max, a, b => if a ≤ b then b else a
+  | .eq, a, b => if a = b then 1 else 0
+  | .lt, a, b => if a < b then 1 else 0
+  | .gt, a, b => if b < a then 1 else 0
+
+/-- adverb operators -/
+inductive AOp | add | sub | mul | div | min | max
+deriving DecidableEq, Repr
+
+def vop (op : EOp) (a b : List Int) : List Int := List.zipWith op.ap a b
+
+/-- element-wise application with scalar broadcasting (equal shapes, or one 0-d operand);
+    trailing-axis broadcasting between different non-scalar shapes is not modelled -/
+def ewWith (f : Int → Int → Int) (a b : Flat) : Option Flat :=
+  if a.shape = b.shape then some ⟨a.shape, List.zipWith f a.data b.data⟩
+  else if a.shape = [] then
+    match a.data with
+    | [x] => some ⟨b.shape, b.data.map (f x)⟩
+    | _ => none
+  else if b.shape = [] then
+    match b.data with
+    | [y] => some ⟨a.shape, a.data.map (fun x => f x y)⟩
+    | _ => none
+  else none
+
+/-- what `floor(a.float()).to(int)` does to an integer: round to the nearest float32
+    (24-bit significand, ties to even) -/
+def expo : Nat → Nat → Nat
+  | _, 0 => 0
+  | a, f + 1 => if a < 2 ^ 24 then 0 else 1 + expo (a / 2) f
+
+def f32round (n : Int) : Int :=
+  let a := n.natAbs
+  if a < 2 ^ 24 then n
+  else
+    let e := expo a 64
+    let q := a / 2 ^ e
+    let r := a % 2 ^ e
+    let half := 2 ^ (e - 1)
+    let q' := if half < r ∨ (r = half ∧ q % 2 = 1) then q + 1 else q
+    if n < 0 then -((q' * 2 ^ e : Nat) : Int) else ((q' * 2 ^ e : Nat) : Int)
+
+/-! ### the abstract tensor library (field for field what the facade calls) -/
+
+structure Lib where
+  /-- torch.add / subtract / multiply / minimum / maximum / eq / less / greater -/
+  ew : EOp → Flat → Flat → Option Flat
+  /-- torch.negative -/
+  neg : Flat → Flat
+  /-- Tensor.pow on an integer tensor with non-negative integer exponents -/
+  pow : Flat → Flat → Option Flat
+  /-- Tensor.to(int) -/
+  toInt : Flat → Flat
+  /-- torch.floor(a.float()).to(int)  (pinned floor_to_int) -/
+  floorF32 : Flat → Flat
+  /-- torch.sum(a, dim=0) / torch.prod(a, dim=0) -/
+  sum0 : Rows → Flat
+  prod0 : Rows → Flat
+  /-- torch.sum(a) / torch.prod(a) over every element (pinned reduce) -/
+  sumAll : Rows → Flat
+  prodAll : Rows → Flat
+  /-- torch.cumsum(a, dim=0) / torch.cumprod(a, dim=0) -/
+  cumsum0 : Rows → Rows
+  cumprod0 : Rows → Rows
+  /-- torch.min(a) / torch.max(a) over every element -/
+  amin : Rows → Option Flat
+  amax : Rows → Option Flat
+  /-- a[i] -/
+  row : Rows → Nat → Option Flat
+  /-- a[1:] -/
+  tail : Rows → Rows
+  /-- torch.stack -/
+  stack : List Flat → Option Rows
+  /-- torch.flip(a, dims=[0]) -/
+  flip0 : Rows → Rows
+  /-- a[i:j] with 0 ≤ i ≤ j ≤ len -/
+  slice0 : Rows → Nat → Nat → Rows
+  /-- torch.cat((a, b)) along axis 0 -/
+  cat0 : Rows → Rows → Option Rows
+
+/-! ### NP: the reference library (numpy on integer tensors) -/
+
+def foldRows (op : EOp) (init : List Int) (rs : List (List Int)) : List Int := rs.foldl (vop op) init
+
+/-- running fold: `[a, f a x1, f (f a x1) x2, …]` -/
+def scanRows (op : EOp) : List Int → List (List Int) → List (List Int)
+  | acc, [] => [acc]
+  | acc, x :: xs => acc :: scanRows op (vop op acc x) xs
+
+def minList : List Int → Option Int
+  | [] => none
+  | x :: xs => some (xs.foldl (fun a b => if a ≤ b then a else b) x)
+
+def maxList : List Int → Option Int
+  | [] => none
+  | x :: xs => some (xs.foldl (fun a b => if a ≤ b then b else a) x)
+
+def stackRows : List Flat → Option Rows
+  | [] => none
+  | t :: ts => if ts.all (fun u => u.shape == t.shape) then some ⟨t.shape, (t :: ts).map (·.data)⟩ else none
+
+def NP : Lib where
+  ew op a b := ewWith op.ap a b
+  neg a := ⟨a.shape, a.data.map (fun x => -x)⟩
+  pow a b := ewWith (fun x y => x ^ y.toNat) a b
+  toInt a := a
+  floorF32 a := ⟨a.shape, a.data.map f32round⟩
+  sum0 R := ⟨R.inner, foldRows .add (List.replicate (prodN R.inner) 0) R.rows⟩
+  prod0 R := ⟨R.inner, foldRows .mul (List.replicate (prodN R.inner) 1) R.rows⟩
+  sumAll R := .scalar (R.rows.flatten.foldl (· + ·) 0)
+  prodAll R := .scalar (R.rows.flatten.foldl (· * ·) 1)
+  cumsum0 R := match R.rows with
+    | [] => R
+    | r :: rs => ⟨R.inner, scanRows .add r rs⟩
+  cumprod0 R := match R.rows with
+    | [] => R
+    | r :: rs => ⟨R.inner, scanRows .mul r rs⟩
+  amin R := (minList R.rows.flatten).map Flat.scalar
+  amax R := (maxList R.rows.flatten).map Flat.scalar
+  row R i := R.rows[i]?.map (fun r => ⟨R.inner, r⟩)
+  tail R := ⟨R.inner, R.rows.tail⟩
+  stack := stackRows
+  flip0 R := ⟨R.inner, R.rows.reverse⟩
+  slice0 R i j := ⟨R.inner, (R.rows.take j).drop i⟩
+  cat0 A B := if A.inner = B.inner then some ⟨A.inner, A.rows ++ B.rows⟩ else none
+
+/-- T's primitives compute what NP's do (hypothesis of every theorem; never an axiom) -/
+structure Agree (T N : Lib) : Prop where
+  ew : ∀ op a b, T.ew op a b = N.ew op a b
+  neg : ∀ a, T.neg a = N.neg a
+  pow : ∀ a b, T.pow a b = N.pow a b
+  toInt : ∀ a, T.toInt a = N.toInt a
+  floorF32 : ∀ a, T.floorF32 a = N.floorF32 a
+  sum0 : ∀ R, T.sum0 R = N.sum0 R
+  prod0 : ∀ R, T.prod0 R = N.prod0 R
+  sumAll : ∀ R, T.sumAll R = N.sumAll R
+  prodAll : ∀ R, T.prodAll R = N.prodAll R
+  cumsum0 : ∀ R, T.cumsum0 R = N.cumsum0 R
+  cumprod0 : ∀ R, T.cumprod0 R = N.cumprod0 R
+  amin : ∀ R, T.amin R = N.amin R
+  amax : ∀ R, T.amax R = N.amax R
+  row : ∀ R i, T.row R i = N.row R i
+  tail : ∀ R, T.tail R = N.tail R
+  stack : ∀ ts, T.stack ts = N.stack ts
+  flip0 : ∀ R, T.flip0 R = N.flip0 R
+  slice0 : ∀ R i j, T.slice0 R i j = N.slice0 R i j
+  cat0 : ∀ A B, T.cat0 A B = N.cat0 A B
+
+/-! ### numpy's own ufunc semantics (the reference side of the comparison) -/
+
+/-- a concrete operand: a Python int (literal) or an integer tensor / ndarray -/
+inductive Arg
+  | py (n : Int)
+  | tn (t : Flat)
+deriving DecidableEq, Repr
+
+def Arg.lift : Arg → Flat
+  | .py n => .scalar n
+  | .tn t => t
+
+def Arg.wf : Arg → Bool
+  | .py _ => true
+  | .tn t => t.wf
+
+/-- np.add(a, b), np.minimum(a, b), np.less(a, b), object-array `==`, … -/
+def npUfunc (op : EOp) (a b : Arg) : Option Flat := NP.ew op a.lift b.lift
+
+/-- np.<ufunc>.reduce(a): a left fold along axis 0 (`add`/`multiply` have identities;
+    `subtract` on zero rows is an error).  np.min / np.max for `&/` `|/` on vectors. -/
+def npReduce : AOp → Rows → Option Flat
+  | .add, R => some ⟨R.inner, foldRows .add (List.replicate (prodN R.inner) 0) R.rows⟩
+  | .mul, R => some ⟨R.inner, foldRows .mul (List.replicate (prodN R.inner) 1) R.rows⟩
+  | .sub, R => match R.rows with
+    | [] => none
+    | r :: rs => some ⟨R.inner, foldRows .sub r rs⟩
+  | .min, R => (minList R.rows.flatten).map Flat.scalar
+  | .max, R => (maxList R.rows.flatten).map Flat.scalar
+  | .div, _ => none
+
+def AOp.eop : AOp → Option EOp
+  | .add => some .add
+  | .sub => some .sub
+  | .mul => some .mul
+  | .min => some .min
+  | .max => some .max
+  | .div => none
+
+/-- np.<ufunc>.accumulate(a) along axis 0 -/
+def npAccumulate (op : AOp) (R : Rows) : Option Rows :=
+  match op.eop, R.rows with
+  | none, _ => none
+  | some _, [] => some R
+  | some e, r :: rs => some ⟨R.inner, scanRows e r rs⟩
+
+/-- base.floor_to_int on integers: np.floor(np.asarray(a, dtype=float)).astype(int)
+    (exact below 2^53; the universes stay below 2^31) -/
+def npFloor (a : Arg) : Option Flat := some a.lift
+
+/-- numpy_backend.power for non-negative integer exponents, after `_e_dyad_power`'s
+    conversion of whole results back to integers -/
+def npPower (a b : Arg) : Option Flat := NP.pow a.lift b.lift
+
+/-! ### the facade (what torch_backend.py does with the library `L`) -/
+
+/-- TorchUfunc.__call__ (add/sub/mul), TorchBackend.minimum/maximum, the wrapped
+    torch.less/greater and TorchBackendProvider.safe_equal -/
+def facadeUfunc (L : Lib) (op : EOp) (a b : Arg) : Option Flat :=
+  match op with
+  | .add | .sub | .mul =>
+    match a, b with
+    | .tn ta, .tn tb => L.ew op ta tb                        -- fast path: two tensors
+    | .tn ta, .py y => L.ew op ta (.scalar y)                -- tensor with a Python scalar
+    | .py x, .tn tb => L.ew op (.scalar x) tb
+    | .py x, .py y => L.ew op (.scalar x) (.scalar y)        -- self._op(asarray(a), asarray(b))
+  | .min | .max =>
+    L.ew op a.lift b.lift                                     -- asarray(a), asarray(b)
+  | .lt | .gt =>
+    L.ew op a.lift b.lift                                     -- Python scalars converted by the wrapper
+  | .eq =>
+    match a, b with
+    | .py x, .py y => some (.scalar (if x = y then 1 else 0)) -- no tensor involved: object compare
+    | _, _ => L.ew .eq a.lift b.lift                          -- 0-d tensors → item(); x == y
+
+/-- TorchUfunc.reduce with the repaired default `axis=0`:
+      add       -> torch.sum(arr, dim=0)
+      multiply  -> torch.prod(arr, dim=0)
+      subtract  -> a[0] - torch.sum(a[1:], dim=0)
+    `&/` and `|/` on vectors go through torch.min / torch.max. -/
+def facadeReduce (L : Lib) : AOp → Rows → Option Flat
+  | .add, R => some (L.sum0 R)
+  | .mul, R => some (L.prod0 R)
+  | .sub, R => (L.row R 0).bind fun a0 => L.ew .sub a0 (L.sum0 (L.tail R))
+  | .min, R => L.amin R
+  | .max, R => L.amax R
+  | .div, _ => none
+
+/-- the pinned tree: `reduce(a, axis=None)` — torch.sum / torch.prod over every element,
+    and `a[0] - torch.sum(a[1:])` -/
+def facadeReducePinned (L : Lib) : AOp → Rows → Option Flat
+  | .add, R => some (L.sumAll R)
+  | .mul, R => some (L.prodAll R)
+  | .sub, R => (L.row R 0).bind fun a0 => L.ew .sub a0 (L.sumAll (L.tail R))
+  | .min, R => L.amin R
+  | .max, R => L.amax R
+  | .div, _ => none
+
+/-- the Python loop `result=[a[0]]; for i in 1..n-1: result.append(op(result[-1], a[i]))`
+    (`fuel` = number of remaining iterations, `i` = loop index) -/
+def accLoop (L : Lib) (op : EOp) (R : Rows) : Nat → Nat → Flat → Option (List Flat)
+  | 0, _, last => some [last]
+  | fuel + 1, i, last =>
+    (L.row R i).bind fun ai =>
+      (L.ew op last ai).bind fun nxt =>
+        (accLoop L op R fuel (i + 1) nxt).map fun rest => last :: rest
+
+/-- TorchUfunc.accumulate: cumsum / cumprod, `cumulative_subtract`, and the generic loop
+    (no accumulate op) followed by torch.stack -/
+def facadeAccumulate (L : Lib) (op : AOp) (R : Rows) : Option Rows :=
+  match op with
+  | .add => some (L.cumsum0 R)
+  | .mul => some (L.cumprod0 R)
+  | .sub =>
+    (L.row R 0).bind fun a0 => (accLoop L .sub R (R.rows.length - 1) 1 a0).bind L.stack
+  | .min | .max | .div => none
+
+/-- TorchBackendProvider.floor_to_int (repaired): integer tensors are returned as they are -/
+def floorToInt (L : Lib) (a : Arg) : Option Flat := some (L.toInt a.lift)
+
+/-- pinned: torch.floor(a.float()).to(int) -/
+def floorToIntPinned (L : Lib) (a : Arg) : Option Flat := some (L.floorF32 a.lift)
+
+/-- TorchBackendProvider.power for non-negative integer exponents: a tensor base uses
+    Tensor.pow; a Python-scalar base goes through numpy.power(float(a), b) — numpy itself -/
+def power (L : Lib) (a b : Arg) : Option Flat :=
+  match a with
+  | .tn ta => L.pow ta b.lift
+  | .py x => NP.pow (.scalar x) b.lift
+
+/-! ### providers -/
+
+structure Provider where
+  ufunc : EOp → Arg → Arg → Option Flat
+  negative : Flat → Flat
+  floorToInt : Arg → Option Flat
+  power : Arg → Arg → Option Flat
+  reduce : AOp → Rows → Option Flat
+  accumulate : AOp → Rows → Option Rows
+  stack : List Flat → Option Rows
+  row : Rows → Nat → Option Flat
+  flip0 : Rows → Rows
+  slice0 : Rows → Nat → Nat → Rows
+  cat0 : Rows → Rows → Option Rows
+
+def numpyP : Provider where
+  ufunc := npUfunc
+  negative := NP.neg
+  floorToInt := npFloor
+  power := npPower
+  reduce := npReduce
+  accumulate := npAccumulate
+  stack := NP.stack
+  row := NP.row
+  flip0 := NP.flip0
+  slice0 := NP.slice0
+  cat0 := NP.cat0
+
+def torchP (L : Lib) : Provider where
+  ufunc := facadeUfunc L
+  negative := L.neg
+  floorToInt := floorToInt L
+  power := power L
+  reduce := facadeReduce L
+  accumulate := facadeAccumulate L
+  stack := L.stack
+  row := L.row
+  flip0 := L.flip0
+  slice0 := L.slice0
+  cat0 := L.cat0
+
+/-- the pinned tree's provider (for the witnesses and the driver) -/
+def torchPinnedP (L : Lib) : Provider :=
+  { torchP L with reduce := facadeReducePinned L, floorToInt := floorToIntPinned L }
+
+/-- every call goes through these wrappers: operands must be well-formed tensors and so
+    must the results (anything else is outside the model) -/
+structure GP where
+  ufunc : EOp → Arg → Arg → Option Flat
+  negative : Flat → Option Flat
+  floorToInt : Arg → Option Flat
+  power : Arg → Arg → Option Flat
+  reduce : AOp → Rows → Option Flat
+  accumulate : AOp → Rows → Option Rows
+  stack : List Flat → Option Rows
+  row : Rows → Nat → Option Flat
+  flip0 : Rows → Option Rows
+  slice0 : Rows → Nat → Nat → Option Rows
+  cat0 : Rows → Rows → Option Rows
+
+def Provider.guard (P : Provider) : GP where
+  ufunc op a b := if a.wf && b.wf then (P.ufunc op a b).filter Flat.wf else none
+  negative a := if a.wf then (some (P.negative a)).filter Flat.wf else none
+  floorToInt a := if a.wf then (P.floorToInt a).filter Flat.wf else none
+  power a b := if a.wf && b.wf then (P.power a b).filter Flat.wf else none
+  reduce op R := if R.wf then (P.reduce op R).filter Flat.wf else none
+  accumulate op R := if R.wf then (P.accumulate op R).filter Rows.wf else none
+  stack ts := if ts.all Flat.wf then (P.stack ts).filter Rows.wf else none
+  row R i := if R.wf then (P.row R i).filter Flat.wf else none
+  flip0 R := if R.wf then (some (P.flip0 R)).filter Rows.wf else none
+  slice0 R i j := if R.wf then (some (P.slice0 R i j)).filter Rows.wf else none
+  cat0 A B := if A.wf && B.wf then (P.cat0 A B).filter Rows.wf else none
+
+/-! ### values and the numeric core grammar -/
+
+inductive Kind | int | real
+deriving DecidableEq, Repr
+
+inductive V
+  | py (n : Int)                       -- Python int
+  | tn (t : Flat)                      -- integer tensor
+  | ab (k : Kind) (shape : List Nat)   -- not modelled: kind and shape only (reals; integers computed from reals)
+deriving DecidableEq, Repr
+
+inductive Res
+  | ok (v : V)
+  | undef                              -- :undefined
+  | oom (why : String)                 -- outside the model (errors, object arrays, broadcasting between ranks, …)
+deriving DecidableEq, Repr
+
+inductive DOp | add | sub | mul | div | pow | min | max | eq | lt | gt
+deriving DecidableEq, Repr
+
+inductive Expr
+  | var (i : Nat)                      -- 0,1,2 = a,b,c ; 3 = x inside an each-function
+  | lit (n : Int)
+  | rlit                               -- a real literal
+  | tlit (t : Flat)                    -- an integer list literal
+  | dy (op : DOp) (l r : Expr)
+  | neg (e : Expr)
+  | floor (e : Expr)
+  | over (op : AOp) (e : Expr)
+  | scan (op : AOp) (e : Expr)
+  | each (body : Expr) (e : Expr)
+  | at (e i : Expr)
+  | take (n : Int) (e : Expr)
+  | drop (n : Int) (e : Expr)
+  | rev (e : Expr)
+  | join (l r : Expr)
+deriving Repr
+
+def V.shape : V → List Nat
+  | .py _ => []
+  | .tn t => t.shape
+  | .ab _ s => s
+
+def V.kind : V → Kind
+  | .py _ => .int
+  | .tn _ => .int
+  | .ab k _ => k
+
+def V.arg : V → Option Arg
+  | .py n => some (.py n)
+  | .tn t => some (.tn t)
+  | .ab _ _ => none
+
+/-- result shape of an element-wise dyad with scalar broadcasting -/
+def bshape (s1 s2 : List Nat) : Option (List Nat) :=
+  if s1 = s2 then some s1 else if s1 = [] then some s2 else if s2 = [] then some s1 else none
+
+def joinKind : Kind → Kind → Kind
+  | .int, .int => .int
+  | _, _ => .real
+
+def ofFlat (o : Option Flat) (why : String) : Res :=
+  match o with
+  | some t => .ok (.tn t)
+  | none => .oom why
+
+def DOp.eop : DOp → Option EOp
+  | .add => some .add | .sub => some .sub | .mul => some .mul
+  | .min => some .min | .max => some .max
+  | .eq => some .eq | .lt => some .lt | .gt => some .gt
+  | .div => none | .pow => none
+
+def isCmp : DOp → Bool
+  | .eq | .lt | .gt => true
+  | _ => false
+
+def isZeroScalar : V → Bool
+  | .py n => n == 0
+  | .tn t => t.shape == [] && t.data == [0]
+  | .ab _ _ => false
+
+/-- dyads.py: eval_dyad_add/subtract/multiply/minimum/maximum/equal/less/more/divide/power -/
+def dyad (G : GP) (op : DOp) (a b : V) : Res :=
+  match op with
+  | .div =>
+    -- eval_dyad_divide: scalar ÷ 0 is :undefined; every other quotient is real
+    if a.shape = [] ∧ b.shape = [] ∧ isZeroScalar b then .undef
+    else match bshape a.shape b.shape with
+      | some s => .ok (.ab .real s)
+      | none => .oom "broadcast"
+  | .pow =>
+    match a.arg, b.arg with
+    | some x, some y =>
+      if y.lift.data.all (fun e => decide (0 ≤ e)) then ofFlat (G.power x y) "power"
+      else .oom "power:negative-exponent"
+    | _, _ => .oom "power:real-operand"
+  | _ =>
+    match op.eop with
+    | none => .oom "op"
+    | some e =>
+      match a.arg, b.arg with
+      | some x, some y => ofFlat (G.ufunc e x y) "ufunc"
+      | _, _ =>
+        match bshape a.shape b.shape with
+        | some s => .ok (.ab (if isCmp op then .int else joinKind a.kind b.kind) s)
+        | none => .oom "broadcast"
+
+/-- fold `f` over the rows as tensors: functools.reduce(f, a) -/
+def foldFlats (f : Flat → Flat → Option Flat) : Flat → List Flat → Option Flat
+  | acc, [] => some acc
+  | acc, x :: xs => (f acc x).bind fun r => foldFlats f r xs
+
+def scanFlats (f : Flat → Flat → Option Flat) : Flat → List Flat → Option (List Flat)
+  | acc, [] => some [acc]
+  | acc, x :: xs => (f acc x).bind fun r => (scanFlats f r xs).map (acc :: ·)
+
+def Rows.flats (R : Rows) : List Flat := R.rows.map (fun r => ⟨R.inner, r⟩)
+
+/-- adverbs.py eval_adverb_over -/
+def overV (G : GP) (op : AOp) (a : V) : Res :=
+  match a with
+  | .py n => .ok (.py n)                                       -- atom: returned as it is
+  | .ab k s =>
+    match s with
+    | [] => .ok (.ab k s)
+    | 0 :: _ => .ok (.ab k s)
+    | 1 :: rest => .ok (.ab k rest)
+    | _ :: rest => .ok (.ab (if op = .div then .real else k) rest)
+  | .tn t =>
+    match t.view with
+    | none => .ok (.tn t)                                      -- 0-d: atom
+    | some R =>
+      match R.rows with
+      | [] => .ok (.tn t)                                      -- empty list: atom
+      | [_] => ofFlat (G.row R 0) "row"                        -- len(a) == 1: a[0]
+      | _ =>
+        match op with
+        | .add | .sub | .mul => ofFlat (G.reduce op R) "reduce"
+        | .div => .ok (.ab .real R.inner)
+        | .min | .max =>
+          if R.inner = [] then ofFlat (G.reduce op R) "min/max"    -- a.ndim == 1: np.min / np.max
+          else
+            let e := if op = .min then EOp.min else EOp.max
+            match R.flats with
+            | [] => .oom "empty"
+            | r :: rs => ofFlat (foldFlats (fun x y => G.ufunc e (.tn x) (.tn y)) r rs) "fold"
+
+/-- adverbs.py eval_adverb_scan_over -/
+def scanV (G : GP) (op : AOp) (a : V) : Res :=
+  match a with
+  | .py n => .ok (.py n)
+  | .ab k s =>
+    match s with
+    | [] => .ok (.ab k s)
+    | 0 :: _ => .ok (.ab k s)
+    | 1 :: _ => if op = .div ∧ k = .int then .oom "known:scan-divide-single-row" else .ok (.ab k s)
+    | _ => .ok (.ab (if op = .div then .real else k) s)
+  | .tn t =>
+    match t.view with
+    | none => .ok (.tn t)
+    | some R =>
+      match R.rows with
+      | [] => .ok (.tn t)
+      | _ =>
+        match op with
+        | .add | .sub | .mul =>
+          match G.accumulate op R with
+          | some S => .ok (.tn S.flat)
+          | none => .oom "accumulate"
+        | .div =>
+          -- np.divide.accumulate is real throughout; the torch loop keeps a single row as it
+          -- is (integer): known finding, carved out of the model
+          if R.rows.length = 1 then .oom "known:scan-divide-single-row" else .ok (.ab .real t.shape)
+        | .min | .max =>
+          let e := if op = .min then EOp.min else EOp.max
+          match R.flats with
+          | [] => .oom "empty"
+          | r :: rs =>
+            match (scanFlats (fun x y => G.ufunc e (.tn x) (.tn y)) r rs).bind G.stack with
+            | some S => .ok (.tn S.flat)
+            | none => .oom "scan"
+
+/-- Python slice bounds of `b[:n]` / `b[n:]` on a list of length `len` -/
+def clampIdx (len : Nat) (n : Int) : Nat :=
+  if n < 0 then (len - n.natAbs) else min n.toNat len
+
+/-- kg_asarray of the results of an each / index list: all integer tensors of one shape are
+    stacked; all abstract values of one shape give an abstract value; anything else is an
+    object array (outside the model) -/
+def collect (G : GP) (rs : List Res) : Res :=
+  let flats := rs.filterMap fun r => match r with
+    | .ok (.py n) => some (Flat.scalar n)
+    | .ok (.tn t) => some t
+    | _ => none
+  if flats.length = rs.length then
+    match G.stack flats with
+    | some S => .ok (.tn S.flat)
+    | none => .oom "stack"
+  else
+    match rs with
+    | .ok (.ab k s) :: rest =>
+      if rest.all (fun r => r == .ok (.ab k s)) then .ok (.ab k (rs.length :: s)) else .oom "mixed"
+    | _ => .oom "mixed"
+
+def rowV (G : GP) (R : Rows) (len : Nat) (i : Int) : Res :=
+  let j : Int := if i < 0 then i + len else i
+  if 0 ≤ j ∧ j < len then ofFlat (G.row R j.toNat) "row" else .oom "index"
+
+def den (P : Provider) : Expr → List V → Res
+  | .var i, env => match env[i]? with
+    | some v => .ok v
+    | none => .oom "unbound"
+  | .lit n, _ => .ok (.py n)
+  | .rlit, _ => .ok (.ab .real [])
+  | .tlit t, _ => if t.wf then .ok (.tn t) else .oom "literal"
+  | .dy op l r, env =>
+    match den P l env, den P r env with
+    | .ok a, .ok b => dyad P.guard op a b
+    | .oom w, _ => .oom w
+    | _, .oom w => .oom w
+    | _, _ => .oom "undefined-operand"
+  | .neg e, env =>
+    match den P e env with
+    | .ok (.py n) => ofFlat (P.guard.negative (.scalar n)) "neg"
+    | .ok (.tn t) => ofFlat (P.guard.negative t) "neg"
+    | .ok (.ab k s) => .ok (.ab k s)
+    | .undef => .oom "undefined-operand"
+    | .oom w => .oom w
+  | .floor e, env =>
+    match den P e env with
+    | .ok (.py n) => ofFlat (P.guard.floorToInt (.py n)) "floor"
+    | .ok (.tn t) => ofFlat (P.guard.floorToInt (.tn t)) "floor"
+    | .ok (.ab _ s) => .ok (.ab .int s)
+    | .undef => .oom "undefined-operand"
+    | .oom w => .oom w
+  | .over op e, env =>
+    match den P e env with
+    | .ok a => overV P.guard op a
+    | .undef => .oom "undefined-operand"
+    | .oom w => .oom w
+  | .scan op e, env =>
+    match den P e env with
+    | .ok a => scanV P.guard op a
+    | .undef => .oom "undefined-operand"
+    | .oom w => .oom w
+  | .each body e, env =>
+    let x := env.take 3
+    match den P e env with
+    | .ok (.py n) => den P body (x ++ [.py n])
+    | .ok (.ab k s) =>
+      match s with
+      | [] => den P body (x ++ [.ab k []])
+      | 0 :: _ => .ok (.ab k s)
+      | n :: rest =>
+        match den P body (x ++ [.ab k rest]) with
+        | .ok (.ab k' s') => .ok (.ab k' (n :: s'))
+        | .ok (.py _) => .ok (.ab .int [n])
+        | .ok (.tn t) => .ok (.ab .int (n :: t.shape))
+        | .undef => .oom "undefined-element"
+        | .oom w => .oom w
+    | .ok (.tn t) =>
+      match t.view with
+      | none => den P body (x ++ [.tn t])
+      | some R =>
+        if R.rows = [] then .ok (.tn t)
+        else if R.wf then collect P.guard (R.flats.map fun r => den P body (x ++ [.tn r]))
+        else .oom "wf"
+    | .undef => .oom "undefined-operand"
+    | .oom w => .oom w
+  | .at e i, env =>
+    match den P e env, den P i env with
+    | .ok (.tn t), .ok iv =>
+      match t.view with
+      | none => .oom "index-atom"
+      | some R =>
+        match iv with
+        | .py n => rowV P.guard R R.rows.length n
+        | .tn it =>
+          if it.shape = [] then
+            match it.data with
+            | [n] => rowV P.guard R R.rows.length n
+            | _ => .oom "index"
+          else if it.shape.length = 1 then
+            if it.data = [] then .oom "empty-index"
+            else collect P.guard (it.data.map fun n => rowV P.guard R R.rows.length n)
+          else .oom "index-rank"
+        | .ab _ _ => .oom "index-real"
+    | .ok (.ab k s), .ok iv =>
+      match s, iv with
+      | _ :: rest, .py _ => .ok (.ab k rest)
+      | _ :: rest, .tn it =>
+        if it.shape = [] then .ok (.ab k rest)
+        else if it.shape.length = 1 ∧ it.data ≠ [] then .ok (.ab k (it.data.length :: rest))
+        else .oom "index-rank"
+      | _, _ => .oom "index"
+    | .oom w, _ => .oom w
+    | _, .oom w => .oom w
+    | _, _ => .oom "index"
+  | .take n e, env =>
+    match den P e env with
+    | .ok (.tn t) =>
+      match t.view with
+      | none => .oom "take-atom"
+      | some R =>
+        if t.data.length = 0 then .ok (.tn t)
+        else if n.natAbs > t.data.length then .oom "take-tile"
+        else
+          let len := R.rows.length
+          let r := if n < 0 then P.guard.slice0 R (clampIdx len n) len else P.guard.slice0 R 0 (clampIdx len n)
+          match r with
+          | some S => .ok (.tn S.flat)
+          | none => .oom "slice"
+    | .ok (.ab k s) =>
+      match s with
+      | len :: rest =>
+        if prodN s = 0 then .ok (.ab k s)
+        else if n.natAbs > prodN s then .oom "take-tile"
+        else .ok (.ab k ((if n < 0 then len - clampIdx len n else clampIdx len n) :: rest))
+      | [] => .oom "take-atom"
+    | .ok (.py _) => .oom "take-atom"
+    | .undef => .oom "undefined-operand"
+    | .oom w => .oom w
+  | .drop n e, env =>
+    match den P e env with
+    | .ok (.tn t) =>
+      match t.view with
+      | none => .oom "drop-atom"
+      | some R =>
+        let len := R.rows.length
+        let r := if 0 ≤ n then P.guard.slice0 R (clampIdx len n) len else P.guard.slice0 R 0 (clampIdx len n)
+        match r with
+        | some S => .ok (.tn S.flat)
+        | none => .oom "slice"
+    | .ok (.ab k s) =>
+      match s with
+      | len :: rest => .ok (.ab k ((if 0 ≤ n then len - clampIdx len n else clampIdx len n) :: rest))
+      | [] => .oom "drop-atom"
+    | .ok (.py _) => .oom "drop-atom"
+    | .undef => .oom "undefined-operand"
+    | .oom w => .oom w
+  | .rev e, env =>
+    match den P e env with
+    | .ok (.tn t) =>
+      match t.view with
+      | none => .oom "reverse-atom"
+      | some R =>
+        match P.guard.flip0 R with
+        | some S => .ok (.tn S.flat)
+        | none => .oom "flip"
+    | .ok (.ab k s) => if s = [] then .oom "reverse-atom" else .ok (.ab k s)
+    | .ok (.py _) => .oom "reverse-atom"
+    | .undef => .oom "undefined-operand"
+    | .oom w => .oom w
+  | .join l r, env =>
+    match den P l env, den P r env with
+    | .ok a, .ok b =>
+      match a.arg, b.arg with
+      | some x, some y =>
+        -- eval_dyad_join on integers: atoms and vectors are spliced; equal-rank arrays with
+        -- the same trailing shape are concatenated; everything else is an object array
+        let side (z : Arg) : Option Rows :=
+          match z.lift.view with
+          | none => some ⟨[], [z.lift.data]⟩
+          | some R => some R
+        match side x, side y with
+        | some A, some B =>
+          if A.inner = B.inner then
+            if x.lift.shape ≠ [] ∧ A.rows = [] then .ok b
+            else match P.guard.cat0 A B with
+              | some S => .ok (.tn S.flat)
+              | none => .oom "cat"
+          else .oom "join-object"
+        | _, _ => .oom "join"
+      | _, _ =>
+        let sh (s : List Nat) : List Nat := if s = [] then [1] else s
+        match sh a.shape, sh b.shape with
+        | n :: ra, m :: rb => if ra = rb then .ok (.ab (joinKind a.kind b.kind) ((n + m) :: ra)) else .oom "join-object"
+        | _, _ => .oom "join"
+    | .oom w, _ => .oom w
+    | _, .oom w => .oom w
+    | _, _ => .oom "undefined-operand"
+
+/-! ### driver (line protocol) -/
+
+/-- Flat → nested Val (driver only) -/
+def nest : List Nat → List Int → Val
+  | [], d => .int (d.headD 0)
+  | n :: inner, d => .list ((chunks (prodN inner) n d).map fun r => nest inner r)
+
+/-- nested Val → (shape, data, has-real) if rectangular and numeric -/
+partial def flatten? : Val → Option (List Nat × List Int × Bool)
+  | .int n => some ([], [n], false)
+  | .real _ => some ([], [0], true)
+  | .list xs =>
+    match xs.mapM flatten? with
+    | none => none
+    | some [] => some ([0], [], false)
+    | some ((s, d, r) :: rest) =>
+      if rest.all (fun p => p.1 == s) then
+        some ((rest.length + 1) :: s, d ++ (rest.map (·.2.1)).flatten, r || rest.any (·.2.2))
+      else none
+  | _ => none
+
+def valToV (v : Val) : Option V :=
+  match v with
+  | .int n => some (.py n)
+  | .real _ => some (.ab .real [])
+  | _ =>
+    match flatten? v with
+    | some (s, d, false) => some (.tn ⟨s, d⟩)
+    | some (s, _, true) => some (.ab .real s)
+    | none => none
+
+def showNats (l : List Nat) : String := ",".intercalate (l.map toString)
+
+def showRes : Res → String
+  | .ok (.py n) => "ok:" ++ (Val.int n).toWire
+  | .ok (.tn t) => "ok:" ++ (nest t.shape t.data).toWire
+  | .ok (.ab .int s) => s!"ab:int:{showNats s}"
+  | .ok (.ab .real s) => s!"ab:real:{showNats s}"
+  | .undef => "undef"
+  | .oom w => "oom:" ++ w
+
+open Val in
+partial def parseExpr : List Tok → Option (Expr × List Tok)
+  | .lp :: .atom "var" :: .atom n :: .rp :: r => n.toNat?.map fun k => (.var k, r)
+  | .lp :: .atom "lit" :: .atom n :: .rp :: r => n.toInt?.map fun k => (.lit k, r)
+  | .lp :: .atom "rlit" :: .rp :: r => some (.rlit, r)
+  | .lp :: .atom "tlit" :: r =>
+    match Val.parse r with
+    | some (v, .rp :: r') =>
+      match flatten? v with
+      | some (s, d, false) => some (.tlit ⟨s, d⟩, r')
+      | _ => none
+    | _ => none
+  | .lp :: .atom "dy" :: .atom op :: r =>
+    let o : Option DOp := match op with
+      | "add" => some .add | "sub" => some .sub | "mul" => some .mul | "div" => some .div
+      | "pow" => some .pow | "min" => some .min | "max" => some .max
+      | "eq" => some .eq | "lt" => some .lt | "gt" => some .gt | _ => none
+    match o, parseExpr r with
+    | some o, some (a, r1) =>
+      match parseExpr r1 with
+      | some (b, .rp :: r2) => some (.dy o a b, r2)
+      | _ => none
+    | _, _ => none
+  | .lp :: .atom "neg" :: r => un Expr.neg r
+  | .lp :: .atom "floor" :: r => un Expr.floor r
+  | .lp :: .atom "rev" :: r => un Expr.rev r
+  | .lp :: .atom "over" :: .atom op :: r => (aop op).bind fun o => un (Expr.over o) r
+  | .lp :: .atom "scan" :: .atom op :: r => (aop op).bind fun o => un (Expr.scan o) r
+  | .lp :: .atom "take" :: .atom n :: r => n.toInt?.bind fun k => un (Expr.take k) r
+  | .lp :: .atom "drop" :: .atom n :: r => n.toInt?.bind fun k => un (Expr.drop k) r
+  | .lp :: .atom "each" :: r => bin Expr.each r
+  | .lp :: .atom "at" :: r => bin Expr.at r
+  | .lp :: .atom "join" :: r => bin Expr.join r
+  | _ => none
+where
+  aop (s : String) : Option AOp :=
+    match s with
+    | "add" => some .add | "sub" => some .sub | "mul" => some .mul | "div" => some .div
+    | "min" => some .min | "max" => some .max | _ => none
+  un (f : Expr → Expr) (r : List Tok) : Option (Expr × List Tok) :=
+    match parseExpr r with
+    | some (a, .rp :: r1) => some (f a, r1)
+    | _ => none
+  bin (f : Expr → Expr → Expr) (r : List Tok) : Option (Expr × List Tok) :=
+    match parseExpr r with
+    | some (a, r1) =>
+      match parseExpr r1 with
+      | some (b, .rp :: r2) => some (f a b, r2)
+      | _ => none
+    | none => none
+
+def valFlat (v : Val) : Option Flat :=
+  match flatten? v with
+  | some (s, d, false) => some ⟨s, d⟩
+  | _ => none
+
+def showFlat (t : Flat) : String := (nest t.shape t.data).toWire
+def showOF : Option Flat → String
+  | some t => showFlat t
+  | none => "none"
+def showOR : Option Rows → String
+  | some R => showFlat R.flat
+  | none => "none"
+
+/-- one primitive of the reference library NP (micro-correspondence against torch / numpy) -/
+def prim (name : String) (args : List Flat) : String :=
+  let eop : String → Option EOp := fun s => match s with
+    | "add" => some .add | "sub" => some .sub | "mul" => some .mul | "min" => some .min
+    | "max" => some .max | "eq" => some .eq | "lt" => some .lt | "gt" => some .gt | _ => none
+  let aop : String → Option AOp := fun s => match s with
+    | "add" => some .add | "sub" => some .sub | "mul" => some .mul | "div" => some .div
+    | "min" => some .min | "max" => some .max | _ => none
+  let rows1 (f : Rows → String) : String := match args with
+    | [a] => match a.view with
+      | some R => f R
+      | none => "bad-op"
+    | _ => "bad-op"
+  match name.splitOn ":", args with
+  | ["ew", o], [a, b] => match eop o with
+    | some e => showOF (NP.ew e a b)
+    | none => "bad-op"
+  | ["neg"], [a] => showFlat (NP.neg a)
+  | ["pow"], [a, b] => showOF (NP.pow a b)
+  | ["toInt"], [a] => showFlat (NP.toInt a)
+  | ["floorF32"], [a] => showFlat (NP.floorF32 a)
+  | ["sum0"], _ => rows1 fun R => showFlat (NP.sum0 R)
+  | ["prod0"], _ => rows1 fun R => showFlat (NP.prod0 R)
+  | ["sumAll"], _ => rows1 fun R => showFlat (NP.sumAll R)
+  | ["prodAll"], _ => rows1 fun R => showFlat (NP.prodAll R)
+  | ["cumsum0"], _ => rows1 fun R => showFlat (NP.cumsum0 R).flat
+  | ["cumprod0"], _ => rows1 fun R => showFlat (NP.cumprod0 R).flat
+  | ["amin"], _ => rows1 fun R => showOF (NP.amin R)
+  | ["amax"], _ => rows1 fun R => showOF (NP.amax R)
+  | ["tail"], _ => rows1 fun R => showFlat (NP.tail R).flat
+  | ["flip0"], _ => rows1 fun R => showFlat (NP.flip0 R).flat
+  | ["row"], [a, i] => match a.view, i.data with
+    | some R, [k] => showOF (NP.row R k.toNat)
+    | _, _ => "bad-op"
+  | ["slice0"], [a, i, j] => match a.view, i.data, j.data with
+    | some R, [x], [y] => showFlat (NP.slice0 R x.toNat y.toNat).flat
+    | _, _, _ => "bad-op"
+  | ["stack"], ts => showOR (NP.stack ts)
+  | ["cat0"], [a, b] => match a.view, b.view with
+    | some A, some B => showOR (NP.cat0 A B)
+    | _, _ => "bad-op"
+  | ["npReduce", o], _ => match aop o with
+    | some e => rows1 fun R => showOF (npReduce e R)
+    | none => "bad-op"
+  | ["npAccumulate", o], _ => match aop o with
+    | some e => rows1 fun R => showOR (npAccumulate e R)
+    | none => "bad-op"
+  | _, _ => "bad-op"
 
 structure State where
   unit : Unit := ()
 
 def init : State := {}
 
-def handle (s : State) (_ws : List String) : State × String := (s, "bad-op")
+/-- `eval <expr> | <val> <val> <val>` → `np=<res> torch=<res> pinned=<res>` -/
+def handle (s : State) (ws : List String) : State × String :=
+  match ws with
+  | "eval" :: rest =>
+    let line := " ".intercalate rest
+    match line.splitOn " | " with
+    | [etxt, vtxt] =>
+      match parseExpr (Val.tokenize etxt), Val.parseMany (Val.tokenize vtxt) with
+      | some (e, []), some vals =>
+        match vals.mapM valToV with
+        | some env =>
+          (s, s!"np={showRes (den numpyP e env)} torch={showRes (den (torchP NP) e env)} pinned={showRes (den (torchPinnedP NP) e env)}")
+        | none => (s, "bad-env")
+      | _, _ => (s, "bad-op")
+    | _ => (s, "bad-op")
+  | "prim" :: name :: rest =>
+    match Val.parseMany (Val.tokenize (" ".intercalate rest)) with
+    | some vals =>
+      match vals.mapM valFlat with
+      | some args => (s, prim name args)
+      | none => (s, "bad-op")
+    | none => (s, "bad-op")
+  | _ => (s, "bad-op")
 
 end Klong.C08
